@@ -311,7 +311,7 @@ def sx_contains(c, x):
     return x in c
 
 
-_FMT = _re.compile(r'%(?:\((\w+)\))?([-0 +#]*)(\*|\d+)?(?:\.(\d+))?([sdrfiuxg%])')
+_FMT = _re.compile(r'%(?:\((\w+)\))?([-0 +#]*)(\*|\d+)?(?:\.(\*|\d+))?([sdrfiuxg%])')
 
 
 def sx_mod(l, r):
@@ -335,15 +335,28 @@ def _format(fmt, args):
         if conv == '%':
             out.append('%')
             continue
-        if key or width == '*':
+        if key:
             raise E.Unsupported('format spec %r' % m.group())
+        stars = []
+        for part in (width, prec):
+            if part == '*':
+                if ai >= len(args):
+                    raise TypeError('not enough arguments for format string')
+                v = args[ai]
+                ai += 1
+                stars.append(v.__index__() if isinstance(v, SymInt) else v)
+        if width == '*':
+            width = str(stars.pop(0))
+        if prec == '*':
+            prec = str(stars.pop(0))
         if ai >= len(args):
             raise TypeError('not enough arguments for format string')
         a = args[ai]
         ai += 1
         w = int(width) if width else 0
         if not is_sym(a):
-            out.extend(m.group() % (a,))
+            spec = '%' + flags + (width or '') + ('.' + prec if prec is not None else '') + conv
+            out.extend(spec % (a,))
             continue
         if isinstance(a, Opaque):
             opaque = a
